@@ -128,7 +128,8 @@ package log
 //@ func (*segment).removeGTE
 //@   props C02 C03 C04 C06 C10
 //@   requires SegInv(s) && CrashOK(s)
-//@   requires [C14.remove-after-commit] s.synced == s.n
+// (nothing is truncated when i lies beyond the last entry: then the call only syncs)
+//@   requires [C14.remove-after-commit] s.synced == s.n || i - s.prevIndex - 1 >= s.n
 //@   requires [C13.remove-range] i > s.prevIndex && i - s.prevIndex - 1 <= 1099511627776
 //@   modifies s.n, s.size, s.synced, contents(s.file.Data), s.file.gdur
 //@   ensures [C13.remove-gte] SegInv(s) && (old(s.n) > i - s.prevIndex - 1 ==> s.n == i - s.prevIndex - 1) && (old(s.n) <= i - s.prevIndex - 1 ==> s.n == old(s.n))
